@@ -49,6 +49,7 @@ def run_case(cs):
     world.write_tree(root, tree)
     state = rng.choice(["none", "flat", "flat", "nested", "nested", "tampered", "nochain", "nomanifest"])
     subdirs = [k for k, v in tree.items() if v is None]
+    prefix_siblings = []
     unstorable_when = rng.choice(["before", "later"]) if rng.random() < 0.1 else None
     if unstorable_when == "before" and world.add_unstorable_name(rng, root, tree):
         cs.count("trees_with_name_not_storable_in_xml")
@@ -56,6 +57,17 @@ def run_case(cs):
         if state == "nested" and subdirs:
             for n in rng.sample(subdirs, min(len(subdirs), 2)):
                 drive.run("create", [os.path.join(root, n), "-h", "md5"])
+                if rng.random() < 0.5:
+                    # siblings without own history whose names merely start with the nested folder's name
+                    for suffix, isdir in ((".ale", False), ("_proxy", True), (" 2", True)):
+                        sp = os.path.join(root, n + suffix)
+                        if rng.random() < 0.6 and not os.path.lexists(sp):
+                            if isdir:
+                                os.makedirs(sp)
+                                sp = os.path.join(sp, "clip.mov")
+                            with open(sp, "wb") as f:
+                                f.write(b"sib" + rng.randbytes(3))
+                            prefix_siblings.append(os.path.relpath(sp, root))
         for g in range(rng.randint(1, 3)):
             drive.run("create", [root] + world.fmt_args(world.gen_formats(rng)))
         hs = world.find_histories(root)
@@ -168,8 +180,13 @@ def run_case(cs):
                 argv += ["-sf", ed]
                 oc += "-emptysel"
             else:
-                for f in rng.sample(files, min(len(files), 2)):
-                    argv += ["-sf", os.path.join(root, f)]
+                sib = [f for f in prefix_siblings if f in files]
+                if sib and rng.random() < 0.5:
+                    argv += ["-sf", os.path.join(root, rng.choice(sib))]
+                    oc += "-prefixsibling"
+                else:
+                    for f in rng.sample(files, min(len(files), 2)):
+                        argv += ["-sf", os.path.join(root, f)]
         elif kind == "create-dr":
             if not files:
                 continue
